@@ -1,11 +1,14 @@
 import CoapVerif.Lemmas.SendQueue
 import CoapVerif.Lemmas.TimerSim
 import CoapVerif.Lemmas.SchedInv
+import CoapVerif.Lemmas.TimerSimFull
 import CoapVerif.Lemmas.Conserve
 import CoapVerif.Lemmas.PduFixed
 import CoapVerif.Lemmas.MsgHold
 import CoapVerif.Lemmas.MsgLayerW
+import CoapVerif.Lemmas.MsgLayerWRefuse
 import CoapVerif.Lemmas.ObserveWait
+import CoapVerif.Lemmas.ObserveWaitInv
 /-
 C06 — the retransmission queue: every pending message is (re)transmitted on the RFC 7252 §4.2 schedule and
 ends in exactly one outcome.
@@ -1112,6 +1115,178 @@ example : ClockOk (Msg.init 0 [{ maxRtx := 1 }]) gevs ∧
     (let r := Msg.prepareCore (Msg.run (Msg.init 0 [{ maxRtx := 1 }]) (gevs.take 5))
      r.1.now = 2000 ∧ r.2 = 4000 ∧ (abs r.1.q).map (·.deadline) = [6000]) := by decide
 
+/-! ### (6') the simulation M ⊑ S for EVERY event sequence: NSTART gate and coincident instants included
+
+`Coap.SimF` (CoapVerif/Lemmas/TimerSimFull.lean).  The two scope conditions of `m_refines_timer_partial` are gone:
+
+* the invariant is `Coap.Sched.FInv` — sessions established, `con_active ≤ NSTART`, and DELAY QUEUES of never-transmitted
+  Confirmables: a message held by NSTART is part of the invariant; its S `send` (and so its schedule) happens when the code
+  really transmits it — from the ACK / RST branch of `coap_dispatch` or from the give-up branch of `coap_retransmit` in the
+  MIDDLE of the due loop;
+* the S events an M event stands for (`SimF.tr`) are computed along the code path, in the order the code processes things:
+  one `tickN now 1` (S fires its earliest due entry) per iteration of the due loop, the `send`s of a drain where the drain
+  happens, `tickN now 0` (the clock has come to `now`, nothing has fired yet) before a `coap_send` / ACK / RST — so what is due
+  at that instant fires when `coap_io_prepare_io` gets to it, as in the code (`tickN` is the one addition to S: a `tick`
+  observed part-way; every S-level theorem of section (5) holds for it);
+* relation `SimF.RelF`: S's clock ≤ M's; S's pending list (ghost `t0` erased) = what M's delta list stands for AS LISTS; the
+  transmissions shown (time, session, mid, retransmission number) are equal AS LISTS; the outcome NACKs shown (time, session,
+  mid, reason) are equal AS LISTS.  Not represented: the interleaving of ONE outcome with the first transmissions it unblocks
+  at the same instant — the code transmits the delayed message and THEN calls the NACK handler (`coap_retransmit`: release,
+  then NACK; RST branch likewise); S reports the outcome and then sends.  `sim_order_witness`: with a message id re-used while
+  the first use is still in flight no translation at all can give the full observation lists in the same order.
+
+Scope: `RunG`, THE WHOLE C06 ALPHABET of section (7) (`SimF.RunInF` is the same predicate): `setNow` (monotone), `prepare`,
+`submit` of a Confirmable with `T > 0` inside the no-wrap range D7 — with or without NSTART room, at any instant — or of a NON
+(transmitted at once, never queued: nothing for S, and not among the Confirmable transmissions compared), `rxAck`, `rxRst`,
+`rxBad` (an ACK with an invalid / request code — for S an `ack`: the BAD_RESPONSE NACK is not an outcome of S), `rxNon` (a
+response: `coap_cancel_all_messages` — for S one `ack` per removed node, each followed by the `send`s its released slot lets out)
+and `connect` at any instant; sessions `SessOk`.  Not in the scope: `hold` / `disconnect` (as in section (7)). -/
+open Coap.Sim Coap.Sched in
+/-- **m_refines_timer_from** (general form): from any M state satisfying the invariant (delay queues allowed) and any S
+state related to it, for EVERY event list: the runs end in related states, the invariant still holds, and every `send` of
+the S run carries the `coap_calc_timeout` value `P` vouches for and the session's MAX_RETRANSMIT. -/
+theorem m_refines_timer_from (par : Nat → Msg.Sess) (P : Nat → Nat → Nat → Prop) (hp : GPar par)
+    (evs : List Msg.Ev) (l : Msg.L) (ts : Timer.TS) (hi : FInv False par P l) (hr : SimF.RelF (mxOf par) l ts)
+    (hin : RunG l evs)
+    (hP : ∀ s mid r, Msg.Ev.submit s true mid r ∈ evs →
+      P s mid (calcTimeout (par s).atI (par s).atF (par s).arfI (par s).arfF r)) :
+    FInv False par P (Msg.run l evs) ∧ SimF.RelF (mxOf par) (Msg.run l evs) (Timer.run ts (SimF.trRun l evs)) ∧
+    SimF.SendsOk par P (SimF.trRun l evs) :=
+  let h := SimF.run_simF hp evs l ts hi hr (SimF.runG_runInF evs l hin) (fun h => h.elim) hP
+  ⟨h.1, h.2.1, h.2.2.2⟩
+
+open Coap.Sim Coap.Sched in
+/-- **m_refines_timer** (FULL): from the initial state, any number of sessions sharing the send queue, EVERY event list of
+the alphabet — Confirmables submitted with or without NSTART room, submissions / ACKs / RSTs at instants at which
+retransmissions are due, punctual or late:
+* S's clock is at most M's;
+* S's pending list (ghost `t0` erased) is exactly what M's delta list stands for: absolute deadline, session, message id,
+  initial timeout `T`, retransmission counter, MAX_RETRANSMIT — in the same order;
+* both have shown the same transmissions (time, session, mid, retransmission number), in the same order;
+* both have shown the same outcome NACKs (time, session, mid, reason), in the same order. -/
+theorem m_refines_timer (now0 : Nat) (sess : List Msg.Sess) (evs : List Msg.Ev)
+    (hs : ∀ se ∈ sess, SessOk se) (hin : RunG (Msg.init now0 sess) evs) :
+    let l := Msg.run (Msg.init now0 sess) evs
+    let ts := Timer.run (Timer.init now0) (SimF.trRun (Msg.init now0 sess) evs)
+    ts.now ≤ l.now ∧
+    ts.pend.map er = absP (fun s => (parOf sess s).maxRtx) l.q.base l.q.nodes ∧
+    SimF.txsS ts.outs = SimF.txsM l.out ∧ SimF.nksS ts.outs = SimF.nksM l.out := by
+  intro l ts
+  have := (SimF.run_simF (pu := False) (P := fun _ _ _ => True) (gpar_of sess hs) evs _ (Timer.init now0)
+    (finv_init False _ now0 sess hs) (SimF.relF_init _ now0 sess) (SimF.runG_runInF _ _ hin) (fun h => h.elim)
+    (fun _ _ _ _ => trivial)).2.1
+  exact ⟨this.now, this.pend, this.txs, this.nacks⟩
+
+open Coap.Sim Coap.Sched in
+/-- **m_schedule_via_timer** (FULL — `retransmit_schedule` lifted from S to M THROUGH the simulation, NSTART-delayed messages
+included): in every punctual run over the C06 alphabet, EVERY transmission `tx t s mid k true` of a Confirmable M ever emits
+belongs to a `coap_send` of (s, mid) in the run with PRNG byte `r`, its first transmission `tx t0 s mid 0` is in the outputs
+— for a message that waited for an NSTART slot, `t0` is the instant it left the delay queue —, `t = t0 + (2^k − 1)·T` with
+`T = coap_calc_timeout(session parameters, r)` drawn ONCE at that submission, and `k ≤ MAX_RETRANSMIT`. -/
+theorem m_schedule_via_timer (now0 : Nat) (sess : List Msg.Sess) (evs : List Msg.Ev)
+    (hs : ∀ se ∈ sess, SessOk se) (hin : RunG (Msg.init now0 sess) evs) (hpu : Punctual (Msg.init now0 sess) evs) :
+    ∀ t s mid k, Msg.Out.tx t s mid k true ∈ (Msg.run (Msg.init now0 sess) evs).out →
+      ∃ t0 r, Msg.Ev.submit s true mid r ∈ evs ∧
+        Msg.Out.tx t0 s mid 0 true ∈ (Msg.run (Msg.init now0 sess) evs).out ∧
+        t = sched t0 (calcTimeout (parOf sess s).atI (parOf sess s).atF (parOf sess s).arfI (parOf sess s).arfF r) k ∧
+        k ≤ (parOf sess s).maxRtx := by
+  intro t s mid k hmem
+  obtain ⟨_, hr, hok, hsend⟩ := SimF.run_simF (pu := True) (P := fun s mid T => ∃ r, Msg.Ev.submit s true mid r ∈ evs ∧
+      T = calcTimeout (parOf sess s).atI (parOf sess s).atF (parOf sess s).arfI (parOf sess s).arfF r)
+    (gpar_of sess hs) evs _ (Timer.init now0) (finv_init True _ now0 sess hs) (SimF.relF_init _ now0 sess)
+    (SimF.runG_runInF _ _ hin)
+    (fun _ => hpu) (fun s mid r h => ⟨r, h, rfl⟩)
+  have hor := Timer.run_orig (Q := fun s mid T mx => (∃ r, Msg.Ev.submit s true mid r ∈ evs ∧
+      T = calcTimeout (parOf sess s).atI (parOf sess s).atF (parOf sess s).arfI (parOf sess s).arfF r) ∧
+      mx = (parOf sess s).maxRtx) _ (Timer.init now0) (Timer.orig_init _ now0) hsend
+  obtain ⟨t0, T, mx, hS⟩ := SimF.tx_M_to_S hr.txs hmem
+  obtain ⟨hsch, hk⟩ := retransmit_schedule now0 _ (hok trivial) t s mid k t0 T mx hS
+  obtain ⟨⟨⟨r, hsub, hT⟩, hmx⟩, h0⟩ := hor.2 t s mid k t0 T mx hS
+  exact ⟨t0, r, hsub, SimF.tx_S_to_M hr.txs h0, by rw [← hT]; exact hsch, by rw [← hmx]; exact hk⟩
+
+open Coap.Sim Coap.Sched in
+/-- **m_single_outcome_via_timer** (FULL — `single_outcome` lifted from S to M THROUGH the simulation; every event list,
+punctual or late, any number of messages and sessions, NSTART-delayed messages included): for every (session, mid), the
+number of FIRST transmissions of the Confirmable — `coap_send`s that passed the NSTART gate at once plus messages that left
+the delay queue — equals the number of outcome NACK-handler calls (TOO_MANY_RETRIES or RST, carrying the sent PDU) plus the
+number of completions without such a NACK (`remC`: an arriving ACK — empty, or with an invalid / request code — that found the
+message in the send queue) plus the number of nodes still in the send queue.  So a message that has been transmitted is — at
+every moment — exactly one of: pending, completed by its ACK, or reported by ONE NACK.  (`m_single_outcome` adds: accepted = first
+transmissions + still delayed.) -/
+theorem m_single_outcome_via_timer (now0 : Nat) (sess : List Msg.Sess) (evs : List Msg.Ev)
+    (hs : ∀ se ∈ sess, SessOk se) (hin : RunG (Msg.init now0 sess) evs) (s mid : Nat) :
+    SimF.tx0C s mid (Msg.run (Msg.init now0 sess) evs).out =
+      nackC s mid (Msg.run (Msg.init now0 sess) evs).out + remC s mid (Msg.init now0 sess) evs +
+        pendC s mid (Msg.run (Msg.init now0 sess) evs).q.nodes :=
+  SimF.conserve_simF (gpar_of sess hs) s mid now0 evs _ (finv_init False _ now0 sess hs)
+    (SimF.relF_init _ now0 sess) (SimF.runG_runInF _ _ hin)
+
+/-- witness run with coincident instants: two sessions; at 2000 the retransmission of message (0,1) is due, and BEFORE the I/O
+loop runs a `coap_send` on session 1 and an RST for (0,1) arrive; then the I/O step -/
+def cevs : List Msg.Ev :=
+  [.submit 0 true 1 0, .submit 0 true 2 255, .setNow 2000, .submit 1 true 7 255, .rxRst 0 1, .prepare, .setNow 5000, .prepare]
+
+open Coap.Sim Coap.Sched in
+/-- non-vacuity of section (6'): the gated witness `gevs` (give-up in the due loop lets the delayed message in) and the
+coincident-instants witness `cevs` (message 2 of session 0 waits for NSTART; RST for message 1 at the instant its
+retransmission is due lets message 2 in) are in scope `RunInF`, punctual, and NOT in the scope `RunIn` of the partial
+theorems; pending lists, transmission lists and NACK lists of S and M agree -/
+example : (∀ se ∈ [({ maxRtx := 1 } : Msg.Sess)], SessOk se) ∧ RunG (Msg.init 0 [{ maxRtx := 1 }]) gevs ∧
+    Punctual (Msg.init 0 [{ maxRtx := 1 }]) gevs ∧ ¬ RunIn (Msg.init 0 [{ maxRtx := 1 }]) gevs ∧
+    RunG (Msg.init 0 [{}, {}]) cevs ∧ Punctual (Msg.init 0 [{}, {}]) cevs ∧ ¬ RunIn (Msg.init 0 [{}, {}]) cevs ∧
+    SimF.txsM (Msg.run (Msg.init 0 [{}, {}]) cevs).out =
+      [.tx 5000 0 2 1 true, .tx 5000 1 7 1 true, .tx 2000 0 2 0 true, .tx 2000 1 7 0 true, .tx 0 0 1 0 true] ∧
+    SimF.nksM (Msg.run (Msg.init 0 [{}, {}]) cevs).out = [.nackRst 2000 0 1] ∧
+    SimF.txsS (Timer.run (Timer.init 0) (SimF.trRun (Msg.init 0 [{}, {}]) cevs)).outs =
+      SimF.txsM (Msg.run (Msg.init 0 [{}, {}]) cevs).out ∧
+    SimF.tx0C 0 2 (Msg.run (Msg.init 0 [{}, {}]) cevs).out = 1 ∧
+    pendC 0 2 (Msg.run (Msg.init 0 [{}, {}]) cevs).q.nodes = 1 ∧
+    RunG (Msg.init 0 [{}, {}]) (cevs ++ [.connect 1, .rxBad 0 2, .setNow 9000, .prepare]) ∧
+    remC 0 2 (Msg.init 0 [{}, {}]) (cevs ++ [.connect 1, .rxBad 0 2, .setNow 9000, .prepare]) = 1 ∧
+    pendC 0 2 (Msg.run (Msg.init 0 [{}, {}]) (cevs ++ [.connect 1, .rxBad 0 2, .setNow 9000, .prepare])).q.nodes = 0 ∧
+    -- the wider-alphabet witness `xevs` (a NON, the NSTART gate, a response cancelling by token, connect, an invalid-code ACK)
+    SimF.txsS (Timer.run (Timer.init 0) (SimF.trRun (Msg.init 0 [{}]) xevs)).outs =
+      SimF.txsM (Msg.run (Msg.init 0 [{}]) xevs).out ∧
+    SimF.txsM (Msg.run (Msg.init 0 [{}]) xevs).out = [.tx 3500 0 2 1 true, .tx 500 0 2 0 true, .tx 0 0 1 0 true] ∧
+    (Timer.run (Timer.init 0) (SimF.trRun (Msg.init 0 [{}]) xevs)).pend = [] := by
+  decide
+
+open Coap.Sim Coap.Sched in
+/-- non-vacuity of `m_refines_timer_from`: the initial state with two sessions satisfies `GPar`, `FInv` and `RelF`; so does the
+state in the MIDDLE of the gated witness (message 2 waiting in the delay queue) with the S state reached so far -/
+example : GPar (parOf [{ maxRtx := 1 }]) ∧
+    FInv False (parOf [{ maxRtx := 1 }]) (fun _ _ _ => True) (Msg.run (Msg.init 0 [{ maxRtx := 1 }]) (gevs.take 3)) ∧
+    SimF.RelF (mxOf (parOf [{ maxRtx := 1 }])) (Msg.run (Msg.init 0 [{ maxRtx := 1 }]) (gevs.take 3))
+      (Timer.run (Timer.init 0) (SimF.trRun (Msg.init 0 [{ maxRtx := 1 }]) (gevs.take 3))) ∧
+    ((Msg.run (Msg.init 0 [{ maxRtx := 1 }]) (gevs.take 3)).getS 0).delayq.map (·.mid) = [2] ∧
+    RunG (Msg.run (Msg.init 0 [{ maxRtx := 1 }]) (gevs.take 3)) (gevs.drop 3) := by
+  have hs : ∀ se ∈ [({ maxRtx := 1 } : Msg.Sess)], SessOk se := by decide
+  have hin : RunG (Msg.init 0 [{ maxRtx := 1 }]) (gevs.take 3) := by decide
+  have h := m_refines_timer_from (parOf [{ maxRtx := 1 }]) (fun _ _ _ => True) (gpar_of _ hs) (gevs.take 3) _ (Timer.init 0)
+    (finv_init False _ 0 _ hs) (SimF.relF_init _ 0 _) hin (fun _ _ _ _ => trivial)
+  exact ⟨gpar_of _ hs, h.1, h.2.1, by decide, by decide⟩
+
+/-- witness for the order remark: ONE session, NSTART 1; message id 5 is submitted, retransmitted at 2000 (next deadline 6000),
+submitted AGAIN while the first use is in flight (held by NSTART), and an RST for id 5 arrives at 2500 -/
+def oevs : List Msg.Ev :=
+  [.submit 0 true 5 0, .setNow 2000, .prepare, .submit 0 true 5 0, .setNow 2500, .rxRst 0 5]
+
+open Coap.Sim Coap.Sched in
+/-- **sim_order_witness** (why the relation compares the transmission list and the NACK list, not their interleaving): the code
+removes the first use of id 5 from the send queue, transmits the second use (`coap_session_connected`), THEN calls the NACK
+handler: `tx 2500 (0,5) 0` before `nack RST 2500 (0,5)`.  S's `rst` takes the first pending entry of (0,5) in deadline order:
+had the `send` of the second use (deadline 4500) come first, `rst` would remove IT and leave the first use (deadline 6000)
+pending; with `rst` first, the NACK precedes the transmission.  The transmission lists and the NACK lists agree, the pending
+lists agree, the full observation lists do not. -/
+theorem sim_order_witness :
+    let l := Msg.run (Msg.init 0 [{}]) oevs
+    let ts := Timer.run (Timer.init 0) (SimF.trRun (Msg.init 0 [{}]) oevs)
+    RunG (Msg.init 0 [{}]) oevs ∧
+    l.out.filterMap obsM = [.nackRst 2500 0 5, .tx 2500 0 5 0 true, .tx 2000 0 5 1 true, .tx 0 0 5 0 true] ∧
+    ts.outs.filterMap obsS = [.tx 2500 0 5 0 true, .nackRst 2500 0 5, .tx 2000 0 5 1 true, .tx 0 0 5 0 true] ∧
+    SimF.txsS ts.outs = SimF.txsM l.out ∧ SimF.nksS ts.outs = SimF.nksM l.out ∧
+    ts.pend.map er = absP (fun _ => 4) l.q.base l.q.nodes ∧ ts.pend.map (·.1) = [4500] := by decide
+
 /-! ## (8) no function of the model ever modifies a node's PDU fields or its stored timeout — whole alphabet, no scope -/
 open Coap.Pdu in
 /-- **pdu_and_timeout_never_modified_step** (byte identity / `T` drawn once, at full generality): for EVERY state of the
@@ -1309,6 +1484,205 @@ theorem w_drain_break_strands_witness :
     lw.dev = true ∧ (lw.l.getS 0).est = true ∧ (lw.l.getS 0).conActive = 0 ∧
     (lw.l.getS 0).delayq.map (·.mid) = [102] ∧ lw.l.q.nodes = [] ∧ lw.l.out.head? = some (.wait 0 0) := by decide
 
+/-! ### (10') the branch the `_partial` theorems above exclude: `coap_send` refuses a message whose first write fails
+
+`dev` is set in two places.  (i) `coap_send_internal`: `bytes_written < 0` → `goto error` — covered HERE by full theorems: the
+caller is told (COAP_INVALID_MID), nothing is queued, and the whole later run is the run without that call.  (ii) the `break`
+in the drain loop of `coap_session_connected` — the open finding `drain_break_strands_delayed` (`w_drain_break_strands_witness`),
+where the property itself fails; that is why `w_run_tracks_m_partial` & co. keep their suffix. -/
+open Coap.Msg Coap.MsgW in
+/-- **w_send_refused_nothing_queued** (every state, every oracle): a `coap_send` that reaches the socket (socket open, the
+gate of `coap_send_pdu` lets it through) and whose write FAILS returns COAP_INVALID_MID to the caller (`.sub none`), leaves the
+attempt on record (marked failed) — and changes nothing else: the send queue, every session record (`con_active`, delay
+queues) and the clock are what they were.  Nothing is queued, no NSTART slot is taken. -/
+theorem w_send_refused_nothing_queued (lw : LW) (s : Nat) (con : Bool) (mid r : Nat)
+    (hopen : (lw.l.getS s).sockOpen = true) (hgate : gate (lw.l.getS s) con = false)
+    (hfail : lw.wf.headD false = true) :
+    let lw' := submitW lw s con mid r
+    lw'.l.out = .sub none :: .tx lw.l.now s mid 0 con :: lw.l.out ∧
+    lw'.l.q = lw.l.q ∧ lw'.l.sess = lw.l.sess ∧ lw'.l.now = lw.l.now ∧
+    lw'.dev = true ∧ lw'.wf = lw.wf.tail ∧ lw'.failed = lw.l.out.length :: lw.failed := by
+  intro lw'
+  have h := submitW_refused lw s con mid r hopen hgate hfail
+  simp only [lw', h]
+  trivial
+
+open Coap.Msg Coap.MsgW in
+/-- **w_refused_send_leaves_no_trace** (every state, every oracle, EVERY later event list): after a refused `coap_send` the
+whole later run — retransmissions, arrivals, give-ups, further sends, further write failures — is, event for event, the run
+that happens WITHOUT that call (the oracle one answer further): same clock, same send queue with the same deadlines and
+counters, same sessions, same remaining oracle, and the same NEW outputs in the same order on top of the two outputs of the
+refused call.  So the refused message gets no NACK and is never transmitted later: nothing that happens later depends on the
+call having been made. -/
+theorem w_refused_send_leaves_no_trace (lw : LW) (s : Nat) (con : Bool) (mid r : Nat) (evs : List Ev)
+    (hopen : (lw.l.getS s).sockOpen = true) (hgate : gate (lw.l.getS s) con = false)
+    (hfail : lw.wf.headD false = true) :
+    let a := runW (submitW lw s con mid r) evs
+    let b := runW { lw with wf := lw.wf.tail } evs
+    a.l.now = b.l.now ∧ a.l.q = b.l.q ∧ a.l.sess = b.l.sess ∧ a.wf = b.wf ∧
+    ∃ new, a.l.out = new ++ .sub none :: .tx lw.l.now s mid 0 con :: lw.l.out ∧ b.l.out = new ++ lw.l.out := by
+  intro a b
+  obtain ⟨h1, h2⟩ := runW_after_refused lw s con mid r evs hopen hgate hfail
+  simp only [a, b, h1, h2]
+  exact ⟨rfl, rfl, rfl, rfl, _, rfl, rfl⟩
+
+open Coap.Msg Coap.MsgW in
+/-- **w_run_with_refused_send_is_m_without_it** (complement of `w_run_tracks_m_partial`): a run `evs1`, a `coap_send` that is
+refused because its first write fails, then `evs2` — any event lists, any oracle, any pattern of failing RETRANSMISSION writes
+— with no other first-write failure (`dev = false` for the run without the call): the write-failure model ends in exactly
+the state of the BASE model's run over `evs1 ++ evs2`, the event list WITHOUT the refused `coap_send`; its outputs are the
+base model's with the failed attempt and COAP_INVALID_MID inserted where the call was made.  So every theorem of sections
+(3)–(9) about `evs1 ++ evs2` is a theorem about the run with the refused call. -/
+theorem w_run_with_refused_send_is_m_without_it (lw0 : LW) (evs1 evs2 : List Ev) (s : Nat) (con : Bool) (mid r : Nat)
+    (hopen : ((runW lw0 evs1).l.getS s).sockOpen = true) (hgate : gate ((runW lw0 evs1).l.getS s) con = false)
+    (hfail : (runW lw0 evs1).wf.headD false = true)
+    (hdev : (runW { runW lw0 evs1 with wf := (runW lw0 evs1).wf.tail } evs2).dev = false) :
+    let a := runW lw0 (evs1 ++ .submit s con mid r :: evs2)
+    let m1 := run lw0.l evs1
+    let m := run lw0.l (evs1 ++ evs2)
+    a.l.now = m.now ∧ a.l.q = m.q ∧ a.l.sess = m.sess ∧
+    ∃ new, m.out = new ++ m1.out ∧ a.l.out = new ++ .sub none :: .tx m1.now s mid 0 con :: m1.out := by
+  intro a m1 m
+  have hb := runW_tracks evs2 _ hdev
+  have h1 := runW_tracks evs1 lw0 hb.1
+  have ha : a = runW (submitW (runW lw0 evs1) s con mid r) evs2 := by
+    simp only [a, runW, List.foldl_append, List.foldl_cons, stepW]
+  have hm : m = Msg.run (runW lw0 evs1).l evs2 := by
+    rw [h1.2]
+    simp only [m, Msg.run, List.foldl_append]
+  obtain ⟨e1, e2, e3, _, new, e5, e6⟩ := w_refused_send_leaves_no_trace (runW lw0 evs1) s con mid r evs2 hopen hgate hfail
+  rw [hb.2] at e1 e2 e3 e6
+  rw [ha, hm]
+  refine ⟨e1, e2, e3, new, ?_, ?_⟩
+  · rw [e6, h1.2]
+  · rw [e5, h1.2]
+
+open Coap.Msg Coap.MsgW Coap.Sim Coap.Sched in
+/-- **w_single_outcome_refused** (complement of `w_single_outcome_partial`): in a run over the C06 alphabet with one refused
+`coap_send` (and any failing retransmission writes), conservation holds with the refused call NOT counted as accepted: for
+every (session, mid) — the refused one included — accepted sends of `evs1 ++ evs2` = outcome NACKs + completions + nodes in the
+send queue + nodes in the delay queue.  The refused call adds no NACK, no queued node, no delayed node. -/
+theorem w_single_outcome_refused (now0 : Nat) (sess : List Sess) (wf : List Bool) (evs1 evs2 : List Ev)
+    (s : Nat) (con : Bool) (mid r : Nat)
+    (hs : ∀ se ∈ sess, SessOk se) (hin : RunG (init now0 sess) (evs1 ++ evs2))
+    (hopen : ((runW (initW now0 sess wf) evs1).l.getS s).sockOpen = true)
+    (hgate : gate ((runW (initW now0 sess wf) evs1).l.getS s) con = false)
+    (hfail : (runW (initW now0 sess wf) evs1).wf.headD false = true)
+    (hdev : (runW { runW (initW now0 sess wf) evs1 with wf := (runW (initW now0 sess wf) evs1).wf.tail } evs2).dev = false)
+    (s' mid' : Nat) :
+    let a := runW (initW now0 sess wf) (evs1 ++ .submit s con mid r :: evs2)
+    accC s' mid' (init now0 sess) (evs1 ++ evs2) =
+      nackC s' mid' a.l.out + remC s' mid' (init now0 sess) (evs1 ++ evs2) + pendC s' mid' a.l.q.nodes +
+        midC mid' (a.l.getS s').delayq := by
+  intro a
+  obtain ⟨_, e2, e3, new, e4, e5⟩ :=
+    w_run_with_refused_send_is_m_without_it (initW now0 sess wf) evs1 evs2 s con mid r hopen hgate hfail hdev
+  have hso := m_single_outcome now0 sess (evs1 ++ evs2) hs hin s' mid'
+  simp only [] at e2 e3 e4 e5 hso
+  have hg : a.l.getS s' = (run (init now0 sess) (evs1 ++ evs2)).getS s' := by
+    simp only [L.getS, a]; rw [e3]; rfl
+  have hn : nackC s' mid' a.l.out = nackC s' mid' (run (init now0 sess) (evs1 ++ evs2)).out := by
+    have happ : ∀ (x y : List Out), nackC s' mid' (x ++ y) = nackC s' mid' x + nackC s' mid' y := by
+      intro x y
+      induction x with
+      | nil => simp [nackC]
+      | cons o x ih => simp only [List.cons_append, nackC, ih]; omega
+    simp only [a]
+    rw [e5]
+    show _ = nackC s' mid' (run (initW now0 sess wf).l (evs1 ++ evs2)).out
+    rw [e4, happ, happ]
+    simp [nackC, nackW, obsM]
+  rw [hn, hg]
+  simp only [a]
+  rw [e2]
+  exact hso
+
+open Coap.Msg Coap.MsgW Coap.Sim Coap.Sched in
+/-- **w_attempts_on_schedule_refused** (complement of `w_attempts_on_schedule_partial`): in a punctual run over the C06
+alphabet with one refused `coap_send` (and any failing retransmission writes), every write attempt of a Confirmable is
+either THE attempt of the refused call (at the time of the call, number 0 — it has no retransmission: nothing else in the
+outputs stems from it) or an attempt of a message accepted in `evs1 ++ evs2`, at its slot `t0 + (2^k − 1)·T` of the one `T`
+drawn at its `coap_send`, `k ≤ MAX_RETRANSMIT`; and every TOO_MANY_RETRIES NACK comes after all `MAX_RETRANSMIT + 1` attempts
+of an ACCEPTED message, one slot after the last — never for the refused one. -/
+theorem w_attempts_on_schedule_refused (now0 : Nat) (sess : List Sess) (wf : List Bool) (evs1 evs2 : List Ev)
+    (s : Nat) (con : Bool) (mid r : Nat)
+    (hs : ∀ se ∈ sess, SessOk se) (hin : RunG (init now0 sess) (evs1 ++ evs2))
+    (hpu : Punctual (init now0 sess) (evs1 ++ evs2))
+    (hopen : ((runW (initW now0 sess wf) evs1).l.getS s).sockOpen = true)
+    (hgate : gate ((runW (initW now0 sess wf) evs1).l.getS s) con = false)
+    (hfail : (runW (initW now0 sess wf) evs1).wf.headD false = true)
+    (hdev : (runW { runW (initW now0 sess wf) evs1 with wf := (runW (initW now0 sess wf) evs1).wf.tail } evs2).dev = false) :
+    let out := (runW (initW now0 sess wf) (evs1 ++ .submit s con mid r :: evs2)).l.out
+    (∀ t s' mid' k, Out.tx t s' mid' k true ∈ out →
+      (t = (Msg.run (init now0 sess) evs1).now ∧ s' = s ∧ mid' = mid ∧ k = 0 ∧ con = true) ∨
+      ∃ t0 r', Ev.submit s' true mid' r' ∈ evs1 ++ evs2 ∧ Out.tx t0 s' mid' 0 true ∈ out ∧
+        t = sched t0 (calcTimeout (parOf sess s').atI (parOf sess s').atF (parOf sess s').arfI (parOf sess s').arfF r') k ∧
+        k ≤ (parOf sess s').maxRtx) ∧
+    (∀ t s' mid', Out.nack t s' .retries mid' true ∈ out →
+      ∃ t0 r', Ev.submit s' true mid' r' ∈ evs1 ++ evs2 ∧
+        (∀ j, j ≤ (parOf sess s').maxRtx →
+          Out.tx (sched t0 (calcTimeout (parOf sess s').atI (parOf sess s').atF (parOf sess s').arfI
+            (parOf sess s').arfF r') j) s' mid' j true ∈ out) ∧
+        t = sched t0 (calcTimeout (parOf sess s').atI (parOf sess s').atF (parOf sess s').arfI (parOf sess s').arfF r')
+          ((parOf sess s').maxRtx + 1)) := by
+  intro out
+  obtain ⟨_, _, _, new, e4, e5⟩ :=
+    w_run_with_refused_send_is_m_without_it (initW now0 sess wf) evs1 evs2 s con mid r hopen hgate hfail hdev
+  have e4' : (Msg.run (init now0 sess) (evs1 ++ evs2)).out = new ++ (Msg.run (init now0 sess) evs1).out := e4
+  have e5' : out = new ++ .sub none :: .tx (Msg.run (init now0 sess) evs1).now s mid 0 con ::
+      (Msg.run (init now0 sess) evs1).out := e5
+  have hsub : ∀ o, o ∈ (Msg.run (init now0 sess) (evs1 ++ evs2)).out → o ∈ out := by
+    intro o ho
+    rw [e4'] at ho
+    rw [e5']
+    simp only [List.mem_append, List.mem_cons] at ho ⊢
+    rcases ho with h | h
+    · exact Or.inl h
+    · exact Or.inr (Or.inr (Or.inr h))
+  have hback : ∀ o, o ∈ out → o = .sub none ∨ o = .tx (Msg.run (init now0 sess) evs1).now s mid 0 con ∨
+      o ∈ (Msg.run (init now0 sess) (evs1 ++ evs2)).out := by
+    intro o ho
+    rw [e5'] at ho
+    rw [e4']
+    simp only [List.mem_append, List.mem_cons] at ho ⊢
+    rcases ho with h | h | h | h
+    · exact Or.inr (Or.inr (Or.inl h))
+    · exact Or.inl h
+    · exact Or.inr (Or.inl h)
+    · exact Or.inr (Or.inr (Or.inr h))
+  refine ⟨?_, ?_⟩
+  · intro t s' mid' k hmem
+    rcases hback _ hmem with h | h | h
+    · cases h
+    · simp only [Out.tx.injEq] at h
+      exact Or.inl ⟨h.1, h.2.1, h.2.2.1, h.2.2.2.1, h.2.2.2.2.symm⟩
+    · obtain ⟨t0, r', h1, h2, h3, h4⟩ := m_schedule_all now0 sess (evs1 ++ evs2) hs hin hpu t s' mid' k h
+      exact Or.inr ⟨t0, r', h1, hsub _ h2, h3, h4⟩
+  · intro t s' mid' hmem
+    rcases hback _ hmem with h | h | h
+    · cases h
+    · cases h
+    · obtain ⟨t0, r', h1, h2, h3⟩ := m_giveup_after_all_retransmissions now0 sess (evs1 ++ evs2) hs hin hpu t s' mid' h
+      exact ⟨t0, r', h1, fun j hj => hsub _ (h2 j hj), h3⟩
+
+open Coap.Msg Coap.MsgW in
+/-- non-vacuity of section (10'): MAX_RETRANSMIT 2; message 1 is sent at 0; at 2000 its retransmission is written; at 2500 a
+`coap_send` of message 7 on session 1 is refused (its write fails); the run goes on: the hypotheses hold, message 7 is nowhere,
+message 1 is retransmitted at 6000 as if nothing had happened -/
+example : let lw0 := initW 0 [{ maxRtx := 2 }, { maxRtx := 2 }] [false, false, true]
+    let evs1 : List Ev := [.submit 0 true 1 0, .setNow 2000, .prepare, .setNow 2500]
+    let evs2 : List Ev := [.setNow 6000, .prepare]
+    ((runW lw0 evs1).l.getS 1).sockOpen = true ∧ gate ((runW lw0 evs1).l.getS 1) true = false ∧
+    (runW lw0 evs1).wf.headD false = true ∧
+    (runW { runW lw0 evs1 with wf := (runW lw0 evs1).wf.tail } evs2).dev = false ∧
+    (runW lw0 (evs1 ++ .submit 1 true 7 0 :: evs2)).dev = true ∧
+    (runW lw0 (evs1 ++ .submit 1 true 7 0 :: evs2)).l.q.nodes.map (·.mid) = [1] ∧
+    (runW lw0 (evs1 ++ .submit 1 true 7 0 :: evs2)).l.out =
+      [.wait 6000 8000, .tx 6000 0 1 2 true, .sub none, .tx 2500 1 7 0 true, .wait 2000 4000, .tx 2000 0 1 1 true,
+       .sub (some 1), .tx 0 0 1 0 true] ∧
+    Coap.Sched.RunG (init 0 [{ maxRtx := 2 }, { maxRtx := 2 }]) (evs1 ++ evs2) ∧
+    Coap.Sim.Punctual (init 0 [{ maxRtx := 2 }, { maxRtx := 2 }]) (evs1 ++ evs2) := by decide
+
 /-! ## (11) an ACK that carries the message id ends the Confirmable whatever code it carries (round X06, seed C06-11)
 
 "… until an ACK or RST carrying its message id arrives from that peer": the ACK branch of `coap_dispatch` removes the
@@ -1435,5 +1809,101 @@ hypotheses hold and the wait returned is 2000 -/
 example : let st := (Coap.Observe.run (init [mkRes 0 true false 0] 30000) [.reg 0 0 1 0 true 1, .chg 0, .adv 500]).1
     st.sendq.map (·.due) = [3500] ∧ st.now = 1500 ∧ waitOf st 1 = 2000 ∧
     st.sendq.Pairwise (fun a b => a.due ≤ b.due) ∧ (∀ q ∈ st.sendq, st.now < q.due) := by decide
+
+/-! ### (12') the two queue invariants of `Coap.Observe` runs, proved: the hypotheses of the `_partial` theorems are gone
+
+`Lemmas/ObserveWaitInv.lean`: every function of C11's server model either leaves the send queue alone, removes nodes (ACK, RST,
+cancel by token, session loss, give-up), or inserts in deadline order a node armed strictly after `now` (`coap_wait_ack` of a
+Confirmable notification: `now + 2000`; `coap_retransmit`: `now + 2000·2^(cnt+1)`); the due loop `retransmitDue` — fuel
+`length + 1` only — pops each due node once and never runs dry (`retransmitDue_spec`: the number of due nodes never grows). -/
+open Coap.Observe Coap.ObsWait in
+/-- **obs_queue_sorted_nothing_due** (every run of the Observe model — every resource list, idle timeout, event list): the send
+queue is in deadline order and nothing in it is due (every event that moves the clock or queues a notification ends with the
+I/O step); `obs_queue_sorted_step`: deadline order is kept by every event from EVERY state. -/
+theorem obs_queue_sorted_nothing_due (res : List Res) (stTicks : Nat) (evs : List Event) :
+    let st := (Coap.Observe.run (init res stTicks) evs).1
+    st.sendq.Pairwise (fun a b => a.due ≤ b.due) ∧ ∀ q ∈ st.sendq, st.now < q.due :=
+  let h := run_qinv evs _ (qinv_init res stTicks)
+  ⟨h.sorted, h.fresh⟩
+
+open Coap.Observe Coap.ObsWait in
+theorem obs_queue_sorted_step (st : State) (e : Event) (h : st.sendq.Pairwise (fun a b => a.due ≤ b.due)) :
+    (Coap.Observe.step st e).1.sendq.Pairwise (fun a b => a.due ≤ b.due) :=
+  step_sorted st e h
+
+open Coap.Observe Coap.ObsWait in
+/-- **obs_io_nothing_due** (every state whose queue is in deadline order, whatever is due, however late the call): after
+`coap_io_prepare_io_lkd` the queue is in deadline order and NOTHING in it is due — `retransmitDue`'s fuel `length + 1` is enough
+for every due node, the ones `coap_check_notify` queued in this very call included. -/
+theorem obs_io_nothing_due (st : State) (h : st.sendq.Pairwise (fun a b => a.due ≤ b.due)) :
+    (io st).1.sendq.Pairwise (fun a b => a.due ≤ b.due) ∧ (io st).1.now = st.now ∧
+    ∀ q ∈ (io st).1.sendq, (io st).1.now < q.due :=
+  ⟨((io_spec st).2 h).1, (io_spec st).1.now, ((io_spec st).2 h).2⟩
+
+open Coap.Observe Coap.ObsWait in
+/-- **obs_io_wait_le_every_deadline_sorted** (every state whose queue is in deadline order — nothing else assumed: whatever
+is due, however late the call): `obs_io_wait_le_every_deadline_partial` with its "nothing due" hypothesis discharged and the
+"sorted" one moved from the state the call LEAVES to the state it STARTS from. -/
+theorem obs_io_wait_le_every_deadline_sorted (st : State) (ncli : Nat)
+    (hsorted : st.sendq.Pairwise (fun a b => a.due ≤ b.due)) :
+    (ioWait st ncli).2.2 = waitOf (io st).1 ncli ∧
+    ∀ q ∈ (io st).1.sendq, 0 < tickWait (io st).1 ncli ∧ waitOf (io st).1 ncli ≤ q.due - (io st).1.now ∧
+      (tickWait (io st).1 ncli < 4294967296 → waitOf (io st).1 ncli = tickWait (io st).1 ncli) :=
+  let hio := obs_io_nothing_due st hsorted
+  obs_io_wait_le_every_deadline_partial st ncli hio.1 hio.2.2
+
+open Coap.Observe in
+/-- non-vacuity of `obs_io_wait_le_every_deadline_sorted` / `obs_io_nothing_due` / `obs_queue_sorted_step`: a state whose queue
+is in deadline order but LATE — both entries overdue by 1000 ticks: the call retransmits both (fuel 3 for 2 due nodes), leaves
+[8500, 8500] and returns 4000 -/
+example : let st0 := (Coap.Observe.run (init [mkRes 0 true false 0, mkRes 1 true false 0] 30000)
+      [.reg 0 0 1 0 true 1, .reg 1 1 2 0 true 1, .chg 0, .chg 1, .adv 500]).1
+    let st : State := { st0 with now := 4500 }
+    st.sendq.map (·.due) = [3500, 3500] ∧ st.sendq.Pairwise (fun a b => a.due ≤ b.due) ∧
+    (io st).1.sendq.map (·.due) = [8500, 8500] ∧ waitOf (io st).1 2 = 4000 := by decide
+
+open Coap.Observe Coap.ObsWait in
+/-- **obs_io_wait_le_every_deadline** (FULL — `obs_io_wait_le_every_deadline_partial` without its two hypotheses): after EVERY
+run of the Observe model (every resource list, idle timeout, event list), let any time `ms` pass and call
+`coap_io_prepare_io_lkd` (this is the event `adv ms`; `ms = 0`: the event `io`): the value returned is computed from the state
+the call LEAVES; while anything is queued — a notification transmitted from inside this very call included — the wait is
+positive ("something is pending" is never reported as 0), never exceeds the time to ANY queued deadline, and the `unsigned int`
+milliseconds equal the tick value below 2^32. -/
+theorem obs_io_wait_le_every_deadline (res : List Res) (stTicks : Nat) (evs : List Event) (ms ncli : Nat) :
+    let st0 := (Coap.Observe.run (init res stTicks) evs).1
+    let st : State := { st0 with now := st0.now + ms }
+    (Coap.Observe.step st0 (.adv ms)).1 = (io st).1 ∧
+    (ioWait st ncli).2.2 = waitOf (io st).1 ncli ∧
+    ∀ q ∈ (io st).1.sendq, 0 < tickWait (io st).1 ncli ∧ waitOf (io st).1 ncli ≤ q.due - (io st).1.now ∧
+      (tickWait (io st).1 ncli < 4294967296 → waitOf (io st).1 ncli = tickWait (io st).1 ncli) := by
+  intro st0 st
+  have hs : st.sendq.Pairwise (fun a b => a.due ≤ b.due) := (run_qinv evs _ (qinv_init res stTicks)).sorted
+  exact ⟨rfl, obs_io_wait_le_every_deadline_sorted st ncli hs⟩
+
+open Coap.Observe Coap.ObsWait in
+/-- **obs_wait_le_every_deadline** (FULL — `obs_wait_le_every_deadline_partial` without hypotheses): the state ANY I/O step
+leaves at the end of ANY run satisfies all three hypotheses of the partial theorem (deadline order, nothing due, no idle
+session past its timeout): the wait in ticks is positive, neither it nor the `unsigned int` milliseconds exceed the time to
+ANY queued deadline, and they are equal below 2^32. -/
+theorem obs_wait_le_every_deadline (res : List Res) (stTicks : Nat) (evs : List Event) (ms ncli : Nat) :
+    let st0 := (Coap.Observe.run (init res stTicks) evs).1
+    let st := (io { st0 with now := st0.now + ms }).1
+    ∀ q ∈ st.sendq, 0 < tickWait st ncli ∧ tickWait st ncli ≤ q.due - st.now ∧
+      waitOf st ncli ≤ q.due - st.now ∧ (tickWait st ncli < 4294967296 → waitOf st ncli = tickWait st ncli) := by
+  intro st0 st
+  have hs : ({ st0 with now := st0.now + ms } : State).sendq.Pairwise (fun a b => a.due ≤ b.due) :=
+    (run_qinv evs _ (qinv_init res stTicks)).sorted
+  have hio := obs_io_nothing_due _ hs
+  exact obs_wait_le_every_deadline_partial st ncli hio.1 hio.2.2 (io_noExpired _)
+
+open Coap.Observe in
+/-- non-vacuity / reading: two NOTIFY_CON resources, two observers; changes; the I/O step at 1500 queues two notifications
+(deadline 3500); at 3500 both are due and retransmitted from inside the call (re-armed for 3500 + 4000 = 7500; the notification for
+the later change is held back by NSTART): the queue the call leaves is [7500, 7500] (deadline order, nothing due), the wait 4000 -/
+example : let evs : List Event := [.reg 0 0 1 0 true 1, .reg 1 1 2 0 true 1, .chg 0, .chg 1, .adv 500, .chg 0]
+    let st0 := (Coap.Observe.run (init [mkRes 0 true false 0, mkRes 1 true false 0] 30000) evs).1
+    st0.sendq.map (·.due) = [3500, 3500] ∧ st0.now = 1500 ∧
+    (io { st0 with now := st0.now + 2000 }).1.sendq.map (·.due) = [7500, 7500] ∧
+    waitOf (io { st0 with now := st0.now + 2000 }).1 2 = 4000 := by decide
 
 end Coap.C06
